@@ -12,21 +12,28 @@ impl<A: Actor> Spawner<A> for SmolSpawner {
     where
         F: Future<Output = crate::DynResult<A>> + Send + 'static,
     {
-        let handle = Arc::new(async_lock::Mutex::new(Some(smol::spawn(future))));
+        // A `smol::Task` is cancelled when dropped and consumed when detached, so keeping it
+        // around ties the actor's life (and the value `join` can hand out) to whoever holds it.
+        // Let the task run detached and pass its result on instead, like the other runtimes do.
+        let (result_tx, result_rx) = futures::channel::oneshot::channel();
+        smol::spawn(async move {
+            let _ = result_tx.send(future.await);
+        })
+        .detach();
         log::trace!("spawning smol task");
-
-        let detach_handle = Arc::clone(&handle);
+        let handle = Arc::new(async_lock::Mutex::new(Some(result_rx)));
 
         ActorHandle::new(move || -> JoinFuture<A> {
             log::trace!("joining smol task");
             let handle = Arc::clone(&handle);
             Box::pin(async move {
-                let mut handle: Option<smol::Task<DynResult<A>>> = handle.lock().await.take();
+                let mut handle: Option<futures::channel::oneshot::Receiver<DynResult<A>>> =
+                    handle.lock().await.take();
 
                 if let Some(handle) = handle.take() {
                     // TODO: don't eat the error
 
-                    let actor = handle.await.ok();
+                    let actor = handle.await.ok().and_then(Result::ok);
                     log::trace!("smol task completed");
                     actor
                 } else {
@@ -34,13 +41,6 @@ impl<A: Actor> Spawner<A> for SmolSpawner {
                     None
                 }
             })
-        })
-        .with_detach_fn(move || {
-            log::trace!("detaching smol task");
-            let mut handle = detach_handle.lock_blocking().take();
-            if let Some(handle) = handle.take() {
-                handle.detach();
-            }
         })
     }
 
